@@ -35,7 +35,7 @@ func storesToLookupField(fn *ssa.Function, field string) []*ssa.Store {
 func c10(c *Ctx) {
 	p, r := c.P, c.R
 	r.Technique = "must-pass-through (cut) checks around the only query-spawn site and around every lookup-ending exit; pairing of the in-flight counter's increments/decrements with spawns/consumed replies; exactly-one-reply path check of the query goroutine; bounded sorted insertion check; CAS-gated result and close-after-drain ordering of the content lookup"
-	r.Explanation = "Decides: (R1) the only site that spawns a query is reached only under !asked[id] of the node it queries and marks asked[id] = true first; the constructor marks the local id asked; (R2) the spawn loop is guarded by queries < alpha with alpha = 3 (strict), every spawn increments the in-flight counter in the same step, every reply consumed (in advance and in shutdown) decrements it, and the reply channel's capacity is alpha; (R3) the query goroutine sends exactly one reply on every path; (R4) results enter only through the sorted push whose growth is bounded by len < max with max = 16 and whose position comes from DistCmp against the target; nodes are pushed only when not seen (and marked seen); (R5) content lookup: the result send and cancel() happen only after a successful compare-and-swap 0->1 of the shared flag, the workers touch that flag through their pointer only with CompareAndSwap or Load (it stays a 0/1 flag for the owner's test), close(resultChannel) comes after run() has returned, and the result is read only after the collector goroutine was joined; (R6) a lookup step reports 'ended' only when no query is in flight: a constant false from the spawn step is returned only after shutdown cleared the query function, shutdown clears it only after draining one reply per in-flight query, and advance ends only when the spawn step said so. Not decided: termination and 'no closer seen node omitted' over all peer graphs and reply orders."
+	r.Explanation = "Decides: (R1) the only site that spawns a query is reached only under !asked[id] of the node it queries and marks asked[id] = true first; the constructor marks the local id asked; (R2) the spawn loop is guarded by queries < alpha with alpha = 3 (strict), every spawn increments the in-flight counter in the same step, every reply consumed (in advance and in shutdown) decrements it, and the reply channel's capacity is alpha; (R3) the query goroutine sends exactly one reply on every path; (R4) results enter only through the sorted push whose growth is bounded by len < max with max = 16 and whose position comes from DistCmp against the target; nodes are pushed only when not seen (and marked seen); (R5) content lookup: the result send and cancel() happen only after a successful compare-and-swap 0->1 of the shared flag, the workers touch that flag through their pointer only with CompareAndSwap or Load (it stays a 0/1 flag for the owner's test), close(resultChannel) comes after run() has returned, and the result is read only after the collector goroutine was joined; (R6) a lookup step reports 'ended' only when no query is in flight: a constant false from the spawn step is returned only after shutdown cleared the query function, shutdown clears it only after draining one reply per in-flight query, and advance ends only when the spawn step said so; the timer pause for an empty table is not taken inside a loop. Not decided: termination and 'no closer seen node omitted' over all peer graphs and reply orders."
 	r.Assumptions = []string{"enode.DistCmp orders by XOR distance", "sort.Search returns the insertion point", "atomic.CompareAndSwapInt32"}
 	r.Floor("R1.ask-once", 3)
 	r.Floor("R2.alpha-bound", 5)
@@ -532,6 +532,34 @@ func c10(c *Ctx) {
 		}
 	}
 
+	// ---- R7 a lookup waits a bounded number of times: the pause taken when the table has nothing
+	// to offer (a timer wait) is not repeated in a loop - a loop that sleeps until the table
+	// fills never ends on a node that knows nobody, and does not see the lookup being cancelled
+	{
+		nW := 0
+		for _, fn := range p.ModuleFuncs() {
+			if fn.Signature.Recv() == nil || core.TypeName(fn.Signature.Recv().Type()) != "lookup" {
+				continue
+			}
+			core.Calls(fn, func(ci ssa.CallInstruction) {
+				cf := core.StaticCalleeFn(ci)
+				waits := false
+				switch core.CalleeID(ci) {
+				case "time.Sleep", "time.After", "time.NewTimer":
+					waits = true
+				}
+				if cf != nil && core.InModule(cf) && cf != fn && (len(core.CallsTo(cf, "time.NewTimer")) > 0 || len(core.CallsTo(cf, "time.Sleep")) > 0 || len(core.CallsTo(cf, "time.After")) > 0) {
+					waits = true
+				}
+				if !waits {
+					return
+				}
+				nW++
+				r.Check(!core.InLoop(ci.Block()), "R6.ends-when-drained", core.FuncName(fn)+" pause-not-repeated", p.Pos(ci.Pos()), "the pause for an empty table is taken at most once per step", "the lookup pauses on a timer inside a loop: with an empty table (or peers that never show up) the lookup never finishes and never reports not-found, and cancelling it has no effect while it waits")
+			})
+		}
+		r.Count("lookup_timer_waits", nW)
+	}
 	// ---- R5 content lookup
 	// the winner flag is a flag: the function that owns it tests it against 1 (or 0), so every
 	// write through the pointer the workers share must be the claim 0 -> 1; a counter (Add) takes
